@@ -141,7 +141,58 @@ def check_wrap_x(case, rec):
     check_wrap(case, rec, True)
 
 
-CHECKS = {'inline': check_inline, 'inline-x': check_inline_x, 'wrap': check_wrap, 'wrap-x': check_wrap_x}
+def check_alias_text(case, rec):
+    """text on an element whose NAME is a built-in alias (incl. the ones defined as empty elements: br, img, input, hr, link, meta…): the text is the
+    element's content all the same — present exactly once, verbatim, after the element's open tag; wrap lines once each, in order. A validity
+    predicate (the alias's own attributes and tag form are C14's business), added after seeded change C04-12 dropped such texts silently."""
+    name, mode, texts, syntax = case['name'], case['mode'], case['texts'], case.get('syntax', 'html')
+    cfg = {'syntax': syntax, 'options': {'output.format': False, 'markup.href': False}}
+    if mode == 'inline':
+        abbr = '%s{%s}' % (name, texts[0])
+    elif mode == 'child':
+        abbr = 'x1>%s{%s}+x2' % (name, texts[0])
+    elif mode == 'wrap-repeat':
+        abbr, cfg['text'] = name + '*', list(texts)
+    else:
+        abbr, cfg['text'] = 'x1>' + name, texts[0]
+    rec.evals()
+    rec.nontrivial(distinct=True)
+    try:
+        with guard():
+            out = expand(abbr, cfg)
+    except Exception as e:
+        rec.fail(core.exc_bucket(e), '%r: %s: %s' % (abbr, type(e).__name__, e))
+        return
+    want = [t.strip() for t in texts if t.strip()] if mode.startswith('wrap') else texts[:1]
+    pos = 0
+    for t in want:
+        k = out.find(t, pos)
+        if k < 0 or out.count(t) != sum(1 for w in want if w == t):
+            rec.fail('alias-text-lost', 'abbreviation %r%s → %r: text %r %s' % (abbr, (' with wrap text %r' % (cfg.get('text'),)) if 'text' in cfg else '', out, t,
+                                                                              'is missing' if k < 0 else 'does not occur exactly once'))
+            return
+        if '<' not in out[:k]:
+            rec.fail('alias-text-lost', 'abbreviation %r → %r: text %r precedes every tag' % (abbr, out, t))
+            return
+        pos = k + len(t)
+    rec.cls('alias-text/' + mode)
+
+
+def alias_text_cases():
+    from emmet.config import Config
+    for syntax in ('html', 'xsl'):
+        table = Config({'syntax': syntax}).snippets
+        # single-element definitions (no operators, no text of their own, no repeater), empty-element ones included
+        names = [k for k, v in sorted(table.items()) if re.fullmatch(r'[A-Za-z][\w:.-]*(\[[^\]{}>+^()*]*\])?/?', v) and re.fullmatch(r'[A-Za-z][\w:-]*', k)]
+        for i, name in enumerate(names):
+            yield {'name': name, 'mode': 'inline', 'texts': [['T1', 'a > b', 'x*2', '(t)'][i % 4]], 'syntax': syntax}
+            if table[name].endswith('/') or i % 4 == 0:
+                yield {'name': name, 'mode': 'child', 'texts': ['in child'], 'syntax': syntax}
+                yield {'name': name, 'mode': 'wrap-repeat', 'texts': ['first.png', '', '  second one  ', 'li*3>a'], 'syntax': syntax}
+                yield {'name': name, 'mode': 'wrap-once', 'texts': ['hello world'], 'syntax': syntax}
+
+
+CHECKS = {'inline': check_inline, 'inline-x': check_inline_x, 'wrap': check_wrap, 'wrap-x': check_wrap_x, 'alias-text': check_alias_text}
 
 # ---- exhaustive: every short text over the markup alphabet that is a *complete* text (balanced braces, no dangling escape, no raw `$`)
 ALPHA = list("aA1#@-.*>+^()[]{}'\"= \\/:!")   # the 27-symbol alphabet minus `$` (numbering/field syntax; counters are generated as atoms instead)
@@ -308,6 +359,8 @@ def run(ctx):
     L = ctx.pick(3, 4)
     ctx.run_parallel('shard_exhaustive', extra=(L,))
     ctx.exhaustive('every complete text of length ≤ %d over the 26-symbol alphabet (markup alphabet minus `$`) in 3 positions; every such text ≤ 2 as wrap line in 3 abbreviations' % L)
+    ctx.run_cases('alias-text', alias_text_cases())
+    ctx.exhaustive('every built-in html/xsl alias with a single-element definition (empty-element definitions included) × inline text; the empty-element ones and every 4th other also as child, under `name*` with 4 wrap lines, and as wrap target')
     ctx.run_parallel('shard_inline', extra=(ctx.pick(300, 4000),))
     ctx.run_parallel('shard_wrap', extra=(ctx.pick(400, 5000),))
     if ctx.thorough or os.environ.get('VERIF_FUZZ'):
